@@ -414,3 +414,4 @@ macro "chain_step" : tactic => `(tactic| first
   | (simp only [chain, decide_eq_true_eq]; omega))
 
 end PV.C13
+
